@@ -30,6 +30,7 @@ type report struct {
 	UnhookedWhere []string `json:"unhooked_where,omitempty"`
 	Packages      []string `json:"packages"`
 	TimeImports   int      `json:"time_imports_rewritten"`
+	Mutated       []string `json:"mutated_files,omitempty"`
 }
 
 func main() {
@@ -37,6 +38,7 @@ func main() {
 	out := flag.String("out", "", "output directory")
 	pkgs := flag.String("pkgs", "swap,messages,txwatcher,electrum,lwk,policy,peersync,lnd,timer", "packages (dirs) to rewrite")
 	timePkgs := flag.String("timepkgs", "", "packages whose \"time\" import is mapped to verif/vtime")
+	mutants := flag.String("mutants", "", "directory mirroring the repository layout whose files replace the repository's (deliberate property-breaking changes, applied without touching the repository)")
 	flag.Parse()
 	if *out == "" {
 		fmt.Fprintln(os.Stderr, "need -out")
@@ -51,6 +53,7 @@ func main() {
 		}
 	}
 	replace := map[string]string{}
+	mutatedSeen := map[string]bool{}
 	for _, pkg := range rep.Packages {
 		dir := filepath.Join(*repo, pkg)
 		ents, err := os.ReadDir(dir)
@@ -63,13 +66,29 @@ func main() {
 				continue
 			}
 			src := filepath.Join(dir, n)
-			data, err := os.ReadFile(src)
+			readFrom := src
+			mutated := false
+			if *mutants != "" {
+				if m := filepath.Join(*mutants, pkg, n); fileExists(m) {
+					readFrom = m
+					mutated = true
+					mutatedSeen[filepath.Join(pkg, n)] = true
+				}
+			}
+			data, err := os.ReadFile(readFrom)
 			if err != nil {
 				continue
 			}
 			newData, changed := rewrite(src, data, &rep, timeSet[pkg])
 			if !changed {
+				if mutated {
+					replace[src] = readFrom
+					rep.Mutated = append(rep.Mutated, filepath.Join(pkg, n))
+				}
 				continue
+			}
+			if mutated {
+				rep.Mutated = append(rep.Mutated, filepath.Join(pkg, n))
 			}
 			dst := filepath.Join(*out, pkg, n)
 			os.MkdirAll(filepath.Dir(dst), 0o755)
@@ -84,10 +103,30 @@ func main() {
 			rep.Files++
 		}
 	}
+	// mutant files outside the rewritten packages replace the originals as they are
+	if *mutants != "" {
+		filepath.Walk(*mutants, func(path string, info os.FileInfo, err error) error {
+			if err != nil || info.IsDir() || !strings.HasSuffix(path, ".go") {
+				return nil
+			}
+			rel, _ := filepath.Rel(*mutants, path)
+			if mutatedSeen[rel] {
+				return nil
+			}
+			replace[filepath.Join(*repo, rel)] = path
+			rep.Mutated = append(rep.Mutated, rel)
+			return nil
+		})
+	}
 	ov, _ := json.MarshalIndent(map[string]any{"Replace": replace}, "", " ")
 	os.WriteFile(filepath.Join(*out, "overlay.json"), ov, 0o644)
 	rj, _ := json.MarshalIndent(rep, "", " ")
 	os.WriteFile(filepath.Join(*out, "report.json"), rj, 0o644)
+}
+
+func fileExists(p string) bool {
+	st, err := os.Stat(p)
+	return err == nil && !st.IsDir()
 }
 
 func rewrite(name string, data []byte, rep *report, mapTime bool) ([]byte, bool) {
